@@ -35,7 +35,8 @@ NAMES = ["ra", "rb", "rc", "rd", "re", "rf", "rg", "rh", "ri", "rj"]
 SALS = [9, 7, 7, 5, 3, 0, 0, -2, -5]
 KIND_FLAGS = {"plain": (False, False), "ret": (False, True), "bare": (False, True),
               "fail": (True, False), "retfail": (True, False),
-              "panic1": (True, False), "panic2": (True, False), "loop": (True, False)}
+              "panic1": (True, False), "panic2": (True, False), "loop": (True, False),
+              "brk": (True, False), "cont": (True, False)}
 
 
 def mk_rules(rng, k, kinds=("plain", "ret", "fail"), weights=(3, 3, 2), stop_p=0.0, distinct_sal=False):
@@ -188,8 +189,9 @@ CODES = {1: "the call panicked, crashed the process or did not return",
          2: "the observed start/end trace is not one the model's stages allow (order, barrier, exactly-once or window violated)",
          3: "the error flag differs",
          4: "the result map keys differ",
-         5: "the specification predicts a crash (cannot happen)"}
-SYMPTOM = {1: "crash", 2: "trace", 3: "error-flag", 4: "result-map", 5: "spec"}
+         5: "the specification predicts a crash (cannot happen)",
+         6: "a rule was still running, or started, after the call had returned"}
+SYMPTOM = {1: "crash", 2: "trace", 3: "error-flag", 4: "result-map", 5: "spec", 6: "after-return"}
 
 
 def evaluate(tag, cases, obs):
@@ -291,6 +293,8 @@ def campaign(run, pid, cases, entries, design_rule, extra_obligations=()):
         vp = value_problems(c, byid[c["id"]])
         if vp and not any(i == c["id"] for i, _ in spec_bad):
             spec_bad.append((c["id"], 4))
+        if byid[c["id"]].get("late"):
+            spec_bad.append((c["id"], 6))
         op = order_problem(c, byid[c["id"]])
         if op:
             byid[c["id"]]["order_problem"] = op
@@ -339,6 +343,8 @@ def engine_check(run, pid, entries, make_cases, rule_text, assumptions):
     if not ok and not run.violations:
         run.report({"kind": "proof", "theorem": pid}, {"theorem": "Props/%s.v" % pid, "log": log[-3000:]},
                    "%s: the Coq development no longer builds and no failing input was found" % pid, no_input=True)
+    if ok and pid == "C11":
+        interp_facts_report(run, pid, bool(run.violations))
     cov = run.coverage
     if not diff_here and ok:
         cov["discharged"] += 1
